@@ -41,6 +41,9 @@ THEOREMS = [
     "IrVerif.AtomicSave.C08_overwritten_spec",
     "IrVerif.AtomicSave.C08_sharded_no_touch",
     "IrVerif.AtomicSave.C08_cleanup_gap",
+    "IrVerif.AtomicSave.C08_unload_crash",
+    "IrVerif.AtomicSave.C08_unload_fs_frame",
+    "IrVerif.AtomicSave.C08_small_loaded_first",
 ]
 ASSUMPTIONS = [
     "os.replace is atomic; tempfile.mkdtemp returns a directory that did not exist (built into the model's Path type; "
@@ -72,6 +75,20 @@ class Injected(OSError):
     pass
 
 
+def _as_list(f) -> list:
+    """A fault is None, one (k, p), or a tuple of (k, p) pairs (several effects fail in one run)."""
+    if f is None:
+        return []
+    if len(f) == 2 and isinstance(f[0], int):
+        return [tuple(f)]
+    return [tuple(x) for x in f]
+
+
+def _norm_fault(f):
+    fs = _as_list(f)
+    return None if not fs else (fs[0] if len(fs) == 1 else tuple(fs))
+
+
 # --------------------------------------------------------------------------- shim
 
 
@@ -82,6 +99,7 @@ class Shim:
         self.events: list = []
         self.n = 0
         self.fault = fault
+        self.faults = dict(_as_list(fault))
         self.mode = mode
         self.tmpdir = None  # what mkdtemp returned
         self.expect = {}  # dest_dir, base
@@ -93,11 +111,11 @@ class Shim:
         with self.lock:
             idx = self.n
             self.n += 1
-            failed = self.fault is not None and idx == self.fault[0]
+            failed = idx in self.faults
             self.events.append(list(ev) + [failed])
         if failed:
             if partial is not None:
-                partial(self.fault[1])
+                partial(self.faults[idx])
             if self.mode == "crash":
                 os._exit(CRASH_RC)
             raise Injected(errno.ENOSPC, "injected fault")
@@ -313,6 +331,10 @@ def _build(case: dict, root: str):
             with open(p, "wb") as fh:
                 fh.write(bytes(f["bytes"]))
             os.chmod(p, f["mode"])
+    if case.get("symlink"):  # destination is a symlink to real/<dest>
+        os.mkdir(os.path.join(root, "real"))
+        os.rename(os.path.join(root, case["dest"]), os.path.join(root, "real", case["dest"]))
+        os.symlink(os.path.join("real", case["dest"]), os.path.join(root, case["dest"]))
     for name in case["pre"]:
         st = os.stat(os.path.join(root, name))
         inomap.setdefault(st.st_ino, len(inomap))
@@ -390,6 +412,17 @@ def _observe(case: dict, root: str, inomap: dict, exts, with_tensors=True) -> di
         if name == "m.onnx":
             continue
         st = os.lstat(p)
+        if case.get("symlink") and name == "real":
+            for sub in sorted(os.listdir(p)):
+                if sub.startswith("." + base + ".") and os.path.isdir(os.path.join(p, sub)):
+                    tmp.append(["T", sorted(os.listdir(os.path.join(p, sub)))])
+            continue
+        if stat.S_ISLNK(st.st_mode):
+            try:
+                st = os.stat(p)
+            except OSError:
+                files[name] = "dangling"
+                continue
         if stat.S_ISDIR(st.st_mode):
             if name.startswith("." + base + ".") or any(name.startswith("." + j[0] + ".") for j in case.get("jobs", [])):
                 tmp.append(["T", sorted(os.listdir(p))])
@@ -401,6 +434,9 @@ def _observe(case: dict, root: str, inomap: dict, exts, with_tensors=True) -> di
         ino = inomap.get(st.st_ino, "new")
         files[name] = [ino, b, stat.S_IMODE(st.st_mode)]
     obs = {"files": files, "tmp": tmp}
+    if case.get("symlink"):
+        lp = os.path.join(root, base)
+        obs["symlink"] = os.path.islink(lp) and os.readlink(lp) == os.path.join("real", base)
     if with_tensors:
         obs["valid"] = [o.valid() for _, o, _ in exts]
         obs["mapped"] = [o.raw is not None for _, o, _ in exts]
@@ -412,6 +448,18 @@ def _observe(case: dict, root: str, inomap: dict, exts, with_tensors=True) -> di
             except Exception:
                 reads.append(None)
         obs["reads"] = reads
+        # what unload_from_model kept in memory for the small external tensors = what the written
+        # model file embeds for them
+        embedded = {}
+        mp = os.path.join(root, "m.onnx")
+        if os.path.exists(mp):
+            import onnx
+
+            proto = onnx.load(mp, load_external_data=False)
+            for init in proto.graph.initializer:
+                if init.data_location != onnx.TensorProto.EXTERNAL:
+                    embedded[init.name] = list(init.raw_data) if init.raw_data else list(init.int32_data)
+        obs["embedded"] = embedded
     return obs
 
 
@@ -451,7 +499,7 @@ def run_real(case: dict, fault=None, mode="exn") -> dict:
         objs, exts, inomap = _build(case, root)
         core._EXTERNAL_TENSOR_COPY_CHUNK_SIZE = case.get("chunk", old_chunk)
         shim = Shim(fault, mode)
-        shim.expect = {"dir": root, "base": case["dest"], "fd": case.get("file") == "fd"}
+        shim.expect = {"dir": os.path.join(root, "real") if case.get("symlink") else root, "base": case["dest"], "fd": case.get("file") == "fd"}
         if mode == "crash":
             sys.stdout.flush()
             sys.stderr.flush()
@@ -626,6 +674,7 @@ def _canon_model_state(st: dict, next0: int, exts_desc) -> dict:
         "valid": st["valid"],
         "mapped": [m is not None for m in st["mapped"]],
         "reads": reads,
+        "mem": st["mem"],
     }
 
 
@@ -682,8 +731,8 @@ def oracle(part, case: dict, obs: dict, fault, mode: str) -> None:
     if mode == "crash":
         return
     trace = obs["trace"]
-    replaced = any(ev[0] == "replace" and not ev[-1] for ev in trace)
-    cleanup_failed = any(ev[0] in ("remove", "rmdir") and ev[-1] for ev in trace)
+    replaced = any(ev[0].rstrip("!") == "replace" and not ev[-1] for ev in trace)
+    cleanup_failed = any(ev[0].rstrip("!") in ("remove", "rmdir") and ev[-1] for ev in trace)
     raised = obs["raised"] is not None
     if raised and not replaced:
         if gotb != old or (got is not None and (got[0] == "new" or got[2] != pre[dest].get("mode", got[2]))):
@@ -695,6 +744,11 @@ def oracle(part, case: dict, obs: dict, fault, mode: str) -> None:
             part.fail(f"{where}:dest-not-new", "save returned normally but the destination does not hold the new bytes", {**tag, "got": gotb})
         if obs["tmp"]:
             part.fail(f"{where}:temp-left-ok", "save returned normally but a temporary directory remains", tag)
+    if case["api"] == "save" and not raised:
+        for t in case["tensors"]:
+            if t["kind"] == "ext" and len(t["bytes"]) <= case["threshold"]:
+                if obs.get("embedded", {}).get(t["name"]) != t["bytes"]:
+                    part.fail(f"{where}:small-tensor-not-preserved", "a small external tensor was not copied to memory before the data file was replaced: the written model embeds other bytes", {**tag, "tensor": t["name"], "embedded": obs.get("embedded", {}).get(t["name"])})
     allext = [t for t in case["tensors"] if t["kind"] == "ext"] + case.get("bystanders", [])
     for t, v, r in zip(allext, obs["valid"], obs["reads"]):
         backed = dest in pre and _same_file(pre, t["ext"]["file"], dest)
@@ -725,12 +779,17 @@ def _oracle_sharded(part, case, obs, fault, mode, where, tag):
 
 
 def _fault_name(obs, fault):
-    if fault is None:
+    fs = _as_list(fault)
+    if not fs:
         return "none"
     tr = obs.get("trace")
-    if tr and fault[0] < len(tr):
-        return tr[fault[0]][0] + ("+partial" if fault[1] else "")
-    return "k"
+    names = []
+    for k, p in fs:
+        if tr and k < len(tr):
+            names.append(tr[k][0] + ("+partial" if p else ""))
+        else:
+            names.append("k")
+    return "&".join(names)
 
 
 # --------------------------------------------------------------------------- one case, all faults
@@ -752,13 +811,26 @@ def check_case(part, case: dict, crash: bool = True, only=None) -> None:
     use_model = case.get("model", True)
     runs = [(None, "exn", base_obs)]
     if only is not None:
-        pts = [tuple(only["fault"])] if only.get("fault") else []
+        pts = [_norm_fault(only["fault"])] if only.get("fault") else []
+    import random
+
+    rng = random.Random(json.dumps(case, sort_keys=True, default=str))
+    doubles = []
     for f in pts:
         if only is None or only.get("mode", "exn") == "exn":
-            runs.append((f, "exn", run_real(case, f, "exn")))
-        if crash and (only is None or only.get("mode") == "crash"):
+            o = run_real(case, f, "exn")
+            runs.append((f, "exn", o))
+            fs = _as_list(f)
+            if only is None and len(fs) == 1 and len(o["trace"]) > fs[0][0] + 1:
+                doubles.append((fs[0], o["trace"]))
+        if crash and len(_as_list(f)) == 1 and (only is None or only.get("mode") == "crash"):
             runs.append((f, "crash", run_real(case, f, "crash")))
-    reqs = [model_request(case, [] if f is None else [f]) for f, mode, _ in runs if mode == "exn"] if use_model else []
+    # fault sequences: a second effect fails while the handlers of the first failure run
+    for f1, tr in rng.sample(doubles, min(2, len(doubles))):
+        k2 = rng.randrange(f1[0] + 1, len(tr))
+        f = (f1, (k2, 0))
+        runs.append((f, "exn", run_real(case, f, "exn")))
+    reqs = [model_request(case, _as_list(f)) for f, mode, _ in runs if mode == "exn"] if use_model else []
     outs = iter(lean_batch(reqs)) if reqs else iter([])
     by_fault = {}
     allext = [t for t in case["tensors"] if t["kind"] == "ext"] + case.get("bystanders", [])
@@ -772,20 +844,24 @@ def check_case(part, case: dict, crash: bool = True, only=None) -> None:
         part.case(
             [case, f, mode],
             nontrivial=True,
-            sample={"api": case["api"], "dest_exists": case["dest"] in case["pre"], "tensors": [t["kind"] for t in case["tensors"]], "fault": f, "mode": mode}
-            if f is not None and f[0] == 3
-            else None,
+            sample={"case": case, "fault": f, "mode": mode, "real_trace": obs.get("trace")} if f == (3, 0) and mode == "exn" else None,
             api=case["api"],
             mode=mode,
-            fault_at=_fault_name({"trace": trace0}, f),
+            compared_with_model=use_model,
+            variant=case.get("label", "plain"),
+            dest_exists=case["dest"] in case["pre"],
+            kinds="+".join(sorted({t["kind"] for t in case["tensors"]})),
+            fault_at=_fault_name(obs if "trace" in obs else {"trace": trace0}, f),
             n_effects=min(len(trace0), 40) // 5 * 5,
         )
         oracle(part, case, obs, f, mode)
+        if "symlink" in obs:
+            part.count(f"symlink_preserved={obs['symlink']}")
         if not use_model:
             continue
         mo = by_fault.get(f)
         if mo is None:
-            mo = by_fault[f] = lean_batch([model_request(case, [f])])[0]
+            mo = by_fault[f] = lean_batch([model_request(case, _as_list(f))])[0]
         if "err" in mo:
             part.disagree("model error " + str(mo["err"]), {"case": case, "fault": f})
             continue
@@ -803,8 +879,15 @@ def check_case(part, case: dict, crash: bool = True, only=None) -> None:
                 "mapped": obs["mapped"],
                 "reads": obs["reads"],
             }
+            mmem = ms.pop("mem")
             if ms != real:
                 part.disagree("post-state: model != implementation", {"case": case, "fault": f, "mode": mode}, ms, real)
+            if case["api"] == "save" and obs["raised"] is None:
+                # memory copies of the small external tensors (model: St.mem) vs the bytes embedded in m.onnx
+                want = {t["name"]: m for t, m in zip(allext, mmem) if m is not None}
+                got = {n: b for n, b in obs.get("embedded", {}).items() if n in {t["name"] for t in allext}}
+                if want != got:
+                    part.disagree("memory copies of small external tensors: model != implementation", {"case": case, "fault": f, "mode": mode}, want, got)
         else:
             st = mo["crash"] if mo["crash"] is not None else mo["final"]
             ms = _canon_model_state(st, next0, exts_desc)
@@ -958,12 +1041,16 @@ def gen_variant(rng) -> dict:
     file object with fileno() (numpy / copy_file_range fast paths write through the descriptor)."""
     case = gen_case(rng)
     case["model"] = False
-    if rng.random() < 0.5:
+    r = rng.random()
+    if r < 0.4:
         case["workers"] = rng.choice([2, 3])
         case["label"] = "parallel"
-    else:
+    elif r < 0.75 or case["dest"] not in case["pre"] or "hard.data" in case["pre"]:
         case["file"] = "fd"
         case["label"] = "fd"
+    else:
+        case["symlink"] = True
+        case["label"] = "symlink"
     return case
 
 
@@ -1094,14 +1181,14 @@ def run(ctx: Ctx) -> None:
     for obj in load_corpus("C08"):
         if "case" in obj:
             cases.append(obj["case"])
-    n = ctx.pick(64, 600)
+    n = ctx.pick(48, 600)
     for _ in range(n):
         cases.append(gen_case(ctx.rng))
-    for _ in range(ctx.pick(40, 300)):
+    for _ in range(ctx.pick(32, 300)):
         cases.append(gen_sharded(ctx.rng))
     for _ in range(ctx.pick(2, 6)):
         cases.append(gen_nul(ctx.rng))
-    for _ in range(ctx.pick(16, 120)):
+    for _ in range(ctx.pick(14, 120)):
         cases.append(gen_variant(ctx.rng))
     base = tempfile.mkdtemp(prefix="c08run-")
     try:
